@@ -174,7 +174,7 @@ contract(LAN + "_LanProtocol.write",
          params={"self": "obj:" + V3, "data": "bytes"},
          requires=["self._transport is not None"],
          raises={LAN + "ProtocolError": {"post": {"nothing_written": "len(events('tx')) == 0"}}},
-         emits={"tx": "data"},
+         emits={"tx": "data", "tx_on": "self._transport"},
          ensures={"written_once": "len(events('tx')) == 1 and events('tx')[0] == data"})
 
 contract(V3 + ".write",
@@ -184,7 +184,8 @@ contract(V3 + ".write",
          raises={LAN + "ProtocolError": {"post": {"nothing_written": "len(events('tx')) == 0", "counter_unchanged": "self._packet_id == old(self._packet_id)"}},
                  "builtins.TypeError": {"when": "packet_type != 6 and packet_type != 0",
                                         "post": {"nothing_written": "len(events('tx')) == 0", "counter_unchanged": "self._packet_id == old(self._packet_id)"}}},
-         emits={"tx": "hs_request(old(self._packet_id), data) if packet_type == 0 else v3_data_packet(self, old(self._packet_id), data)"},
+         emits={"tx": "hs_request(old(self._packet_id), data) if packet_type == 0 else v3_data_packet(self, old(self._packet_id), data)",
+                "tx_on": "self._transport"},
          post_let={"T": "events('tx')"},
          ensures={"one_packet": "len(T) == 1",
                   "counter_advances_and_wraps": "self._packet_id == (old(self._packet_id) + 1) & 0xFFF",
@@ -333,7 +334,7 @@ def as_bytes(x):
 contract(LANC + ".authenticate",
          params={"self": "obj:" + LANC, "token": "union:none|bytes", "key": "union:none|bytes[32]", "retries": "int[1,8]"},
          requires=["lan_inv(self)", "implies(token is not None, len(token) <= 65000)"],
-         cancellation=True,
+         cancellation=True, emits={"phase": "'handshake'"},
          modifies=["self._token", "self._key", "self._protocol", "self._protocol_version", "self._connection_expiration", "self._protocol.*"],
          let={"tok": "self._token if (token is None or key is None) else token", "k": "self._key if (token is None or key is None) else key",
               "old_retries": "retries"},
@@ -370,7 +371,10 @@ contract(LANC + ".send",
          requires=["lan_inv(self)", "len(data) <= 60000"],
          cancellation=True, rtype="list:bytes",
          modifies=["self._token", "self._key", "self._protocol", "self._protocol_version", "self._connection_expiration", "self._protocol.*"],
-         let={"old_retries": "retries"},
+         let={"old_retries": "retries", "was_alive": "alive_spec(self)",
+              "was_v3": "isinstance(self._protocol, _LanProtocolV3)",
+              "was_authenticated": "isinstance(self._protocol, _LanProtocolV3) and authenticated_spec(self._protocol)"},
+         post_let={"PH": "events('phase')"},
          raises={LAN + "ProtocolError": {"post": {"recoverable": "lan_inv(self)"}},
                  "builtins.TimeoutError": {"post": {"recoverable": "lan_inv(self)"}},
                  "asyncio.CancelledError": {"post": {"recoverable": "lan_inv(self)"}}},
@@ -378,7 +382,12 @@ contract(LANC + ".send",
                   "connected": "self._protocol is not None",
                   "got_a_response": "len(result) >= 1",
                   "v3_authenticated_before_data": "implies(isinstance(self._protocol, _LanProtocolV3), self._protocol._local_key is not None)",
-                  "transmitted_at_least_once_at_most_retries": "1 <= final('n') + 1 <= old_retries"},
+                  "transmitted_at_least_once_at_most_retries": "1 <= final('n') + 1 <= old_retries",
+                  # C07: a dead / expired connection is replaced, and a V3 session without a valid handshake is re-authenticated, before any data
+                  "reconnects_when_not_alive": "(not was_alive) == ('connect' in PH)",
+                  "handshake_before_data_when_needed": "implies(isinstance(self._protocol, _LanProtocolV3), ('handshake' in PH) == (not was_alive or not was_authenticated))",
+                  "connect_precedes_handshake": "PH in (['connect', 'handshake'], ['handshake'], ['connect'], [])",
+                  "data_goes_out_on_the_current_connection": "all(same_object(t, self._protocol._transport) for t in events('tx_on'))"},
          loops={"0": {"havoc": {"responses": "list:bytes"}},
                 "1": {"ghost_init": {"n": "0"}, "havoc": {"n": "int[0,8]", "responses": "list:bytes"},
                       "modifies": ["self._protocol._packet_id", "self._protocol._queue"],
@@ -421,7 +430,7 @@ contract(LANC + "._disconnect",
 
 contract(LANC + "._connect",
          params={"self": "obj:" + LANC},
-         cancellation=True,
+         cancellation=True, emits={"phase": "'connect'"},
          modifies=["self._protocol", "self._connection_expiration"],
          raises={"builtins.TimeoutError": {"modifies": []}, LAN + "ProtocolError": {"modifies": []}, "asyncio.CancelledError": {"modifies": []}},
          ensures={"connected": "self._protocol is not None and self._protocol._transport is not None and transport_alive(self._protocol)",
